@@ -192,10 +192,9 @@ def run_case(scheme, cert_reqs, check_hostname, trust, server_hostname, server_c
         os.environ["WEBSOCKET_CLIENT_CA_BUNDLE"] = envv
     for k in ("http_proxy", "https_proxy", "HTTP_PROXY", "HTTPS_PROXY", "no_proxy", "NO_PROXY", "SSLKEYLOGFILE"):
         os.environ.pop(k, None)
-    saved_sock, saved_ssl = lib._http.socket, lib._http.ssl
+    from .. import seams
     cssl = CountingSSL()
-    lib._http.socket = FakeSocketModule(client, log)
-    lib._http.ssl = cssl
+    netpatch = seams.Patch().apply(seams.socket_pairs(FakeSocketModule(client, log)) + seams.ssl_pairs(cssl))
     opts = {}
     if route == "proxy":
         opts.update(http_proxy_host="proxy.test", http_proxy_port=3128)
@@ -208,7 +207,7 @@ def run_case(scheme, cert_reqs, check_hostname, trust, server_hostname, server_c
         except Exception as e:  # noqa
             exc = e
     finally:
-        lib._http.socket, lib._http.ssl = saved_sock, saved_ssl
+        netpatch.undo()
         os.environ.pop("WEBSOCKET_CLIENT_CA_BUNDLE", None)
         if old_env is not None:
             os.environ["WEBSOCKET_CLIENT_CA_BUNDLE"] = old_env
